@@ -295,12 +295,12 @@ structure DPInv (c : ZCfg) (L : Nat) (st : DP) : Prop where
   zhigh : st.zHigh ≤ c.window
   tmp : st.tmpHigh ≤ max c.window st.flushHigh
   lim : st.limit ≤ L
-  /-- as long as no frame start was refused the budget, the scratch row and the current frame's
-      output line are covered by what was charged -/
-  paid : st.unpaid = false → st.scratchLen ≤ L - st.limit ∧ st.frame.outLine ≤ L - st.limit
+  /-- the scratch row and the current frame's output line are covered by what was charged (a frame whose
+      charge is refused is never installed) -/
+  paid : st.scratchLen ≤ L - st.limit ∧ st.frame.outLine ≤ L - st.limit
 
 theorem DP.start_inv (c : ZCfg) (L : Nat) (fr : DPFrame) (O : Bytes) (st : DP)
-    (h : DP.start L fr O = some st) : DPInv c L st ∧ st.unpaid = false ∧ st.frame = fr := by
+    (h : DP.start L fr O = some st) : DPInv c L st ∧ st.limitHit = false ∧ st.frame = fr := by
   unfold DP.start at h
   split at h
   · cases h
@@ -314,7 +314,7 @@ theorem DP.start_inv (c : ZCfg) (L : Nat) (fr : DPFrame) (O : Bytes) (st : DP)
     · exact Nat.zero_le _
     · exact Nat.zero_le _
     · exact Nat.sub_le _ _
-    · intro _; dsimp only; omega
+    · dsimp only; omega
 
 /-- compaction + appending `bs` while the Reader still wants data: the new length -/
 theorem DPInv.append_len {c : ZCfg} {L : Nat} {st : DP} (hi : DPInv c L st)
@@ -338,7 +338,7 @@ theorem DP.step_inv (c : ZCfg) (hc : c.Ok) (L : Nat) (st st' : DP) (op : DPOp)
     · simp only [DPOut.ok.injEq] at hs; subst hs
       have := hi.lim
       exact { hi with lim := by dsimp only; omega,
-                      paid := fun hu => by have := hi.paid hu; dsimp only; omega }
+                      paid := by have := hi.paid; dsimp only; omega }
     · cases hs
   | pullNone =>
     simp only [DP.step] at hs
@@ -428,7 +428,7 @@ theorem DP.step_inv (c : ZCfg) (hc : c.Ok) (L : Nat) (st st' : DP) (op : DPOp)
     · cases hs
   | scratch =>
     simp only [DP.step, DPOut.ok.injEq] at hs; subst hs
-    exact { hi with paid := fun hu => by have := hi.paid hu; dsimp only; omega }
+    exact { hi with paid := by have := hi.paid; dsimp only; omega }
   | skip k =>
     simp only [DP.step] at hs
     obtain ⟨z', bs, hp, hz', hg, _, hbw⟩ := ZW.pull_sz c hc st.O st.z k hi.zsz
@@ -465,11 +465,9 @@ theorem DP.step_inv (c : ZCfg) (hc : c.Ok) (L : Nat) (st st' : DP) (op : DPOp)
         exact { hi with ubinv := UB.inv_new, prev := Or.inl rfl, row2 := hr2, rowle := Nat.le_refl _,
                         ublen := by simp only [UB.new, List.length_nil]; omega,
                         lim := by dsimp only; omega,
-                        paid := fun hu => by have := hi.paid hu; dsimp only; omega }
+                        paid := by have := hi.paid; dsimp only; omega }
       · simp only [DPOut.ok.injEq] at hs; subst hs
-        exact { hi with ubinv := UB.inv_new, prev := Or.inl rfl, row2 := hr2, rowle := Nat.le_refl _,
-                        ublen := by simp only [UB.new, List.length_nil]; omega,
-                        paid := fun hu => by cases hu }
+        exact { hi with zsz := hi.zsz }
   | finish =>
     simp only [DP.step, DPOut.ok.injEq] at hs; subst hs
     have := hi.row2; have := hi.rowle
@@ -685,11 +683,12 @@ theorem DP.step_frame (c : ZCfg) (st st' : DP) (op : DPOp) (hs : st.step c op = 
     st'.frame = st.frame ∨ op = .newFrame st'.frame := by
   cases op with
   | newFrame fr =>
-    right
     simp only [DP.step] at hs
     split at hs
     · cases hs
-    · split at hs <;> (simp only [DPOut.ok.injEq] at hs; subst hs; rfl)
+    · split at hs
+      · right; simp only [DPOut.ok.injEq] at hs; subst hs; rfl
+      · left; simp only [DPOut.ok.injEq] at hs; subst hs; rfl
   | pullFlush fl O' =>
     left
     simp only [DP.step] at hs
@@ -889,6 +888,30 @@ theorem DP.runFrom_ok (c : ZCfg) (L : Nat) (fr : DPFrame) (O : Bytes) (ops : Lis
     | ok st => rw [hr] at h; simp only [DPOut.obs, DPObs.ok.injEq] at h; exact ⟨st0, st, rfl, hr, h⟩
     | refused => rw [hr] at h; cases h
     | panic => rw [hr] at h; cases h
+
+/-- reading an observed outcome of the pinned tree's run back -/
+theorem DP.runFromPinned_ok (c : ZCfg) (L : Nat) (fr : DPFrame) (O : Bytes) (ops : List DPOp) (s : DPSizes)
+    (h : DP.runFromPinned c L fr O ops = some (.ok s)) :
+    ∃ st0 st, DP.start L fr O = some st0 ∧ DP.runPinned c ops st0 = .ok st ∧ st.sizes = s := by
+  unfold DP.runFromPinned at h
+  cases h0 : DP.start L fr O with
+  | none => rw [h0] at h; cases h
+  | some st0 =>
+    rw [h0] at h
+    simp only [Option.some.injEq] at h
+    cases hr : DP.runPinned c ops st0 with
+    | ok st => rw [hr] at h; simp only [DPOut.obs, DPObs.ok.injEq] at h; exact ⟨st0, st, rfl, hr, h⟩
+    | refused => rw [hr] at h; cases h
+    | panic => rw [hr] at h; cases h
+
+/-- the pinned tree and the repaired tree differ only in a frame start whose charge is refused -/
+theorem DP.stepPinned_eq (c : ZCfg) (st : DP) (op : DPOp)
+    (h : ∀ fr, op = .newFrame fr → fr.outLine ≤ st.limit) : st.stepPinned c op = st.step c op := by
+  cases op with
+  | newFrame fr =>
+    have hl := h fr rfl
+    simp only [DP.stepPinned, DP.step, hl, if_true]
+  | _ => rfl
 
 /-! ## `Vec` capacity (std's amortised growth) -/
 
